@@ -323,7 +323,8 @@ def single_qubit_wrapper_info(op_list):
         definitions = definitions + oq_info.define_gate
         gate_name += oq_info.gate_name
         gate_symbol += oq_info.gate_symbol
-        def_usage += f"{oq_info.gate_name} a;\n"
+        # the last operation of the list acts first: openQASM executes a gate body from top to bottom
+        def_usage = f"{oq_info.gate_name} a;\n" + def_usage
 
     if gate_name in gate_name_dict:  # i.e. gate is already somehow defined
         return gate_name_dict[gate_name]
